@@ -45,6 +45,7 @@ def ob(name, entry, defs, desc, ndebug=False, timeout=400, mem_gb=5, **kw):
                        ["%s:%d" % (l, n) for l, n in sorted(LOOPS.items())] + ["%s:%d" % (l, 30) for l in _c12.COPY_LOOPS],
              cbmc=["--max-field-sensitivity-array-size", str(VP_OBJ), "--object-bits", "10"],
              instrument=[["--replace-calls", "evbuffer_decref_and_unlock_:vp_cut_decref"]],
+             solver="cadical",     # minisat needs 520 s where cadical needs 24 s (write_shape2)
              timeout=timeout, mem_gb=mem_gb, ndebug=ndebug)
     o.update(kw)
     return o
